@@ -771,6 +771,16 @@ class SymBytes:
     def rstrip(self, *a):
         return SymBytes(self.concrete().rstrip(*a), mutable=self.mutable)
 
+    def ljust(self, width, fill=b" "):
+        self._realise()
+        width = conc(width)
+        return SymBytes(self.c + list(fill) * max(0, width - len(self.c)), mutable=self.mutable)
+
+    def rjust(self, width, fill=b" "):
+        self._realise()
+        width = conc(width)
+        return SymBytes(list(fill) * max(0, width - len(self.c)) + self.c, mutable=self.mutable)
+
     def startswith(self, p):
         return bytes(self.concrete()).startswith(p)
 
